@@ -7,6 +7,7 @@ import Proofs.Aligned
 import Proofs.BackGlobal
 import Proofs.Counted
 import Proofs.NoIdleGlobal
+import Proofs.EarliestFit
 import Properties.C09
 /-! driver command `J {"op":"sched", …}`: run the scheduler model on one scenario projection -/
 namespace SPD
@@ -109,6 +110,16 @@ def fwdEffB (e : Env) (t : Nat) : Bool :=
   let d := e.taskD t
   d.leaf && d.hasAlloc && !d.milestone && decide (d.effort > 0) && !d.startProvided
 
+/-- the order in which the loop places the tasks, latest first (a replica of `pickLoop` that records the picks; used only to
+    evaluate the conclusion of `C07.earliest_fit_in_placement_order` with the order the theorem's proof uses) -/
+def pickOrder (e : Env) : Nat → List Nat → St → List Nat → List Nat
+  | 0, _, _, acc => acc
+  | f + 1, tasks, σ, acc =>
+    if tasks.isEmpty then acc
+    else match tasks.find? (fun t => ready e σ t) with
+      | some t => pickOrder e f (tasks.erase t) (updateContainers e (scheduleTask e σ t).1) (t :: acc)
+      | none => acc
+
 def runSched (j : Json) : Json :=
   let p := parseProj j
   let el := elaborate p
@@ -190,6 +201,21 @@ def runSched (j : Json) : Json :=
       !((List.range (L - b + 1).toNat).all (fun k =>
         let i := b + (k : Int)
         !(e.onShift r i && !e.leaveMark r i) || !(σ.led.get r i).usage.isEmpty)))
+  -- C07.earliest_fit_in_placement_order, with the loop's own order: a working slot in [bound, last] carries the task or an earlier one
+  let σ0 := preLoop e (prepare e (initState e))
+  let order := pickOrder e ((todoOf e σ0).length + 1) (todoOf e σ0) σ0 []
+  let fitFail := idleTasks.filter (fun t =>
+    let r := (e.taskD t).alloc.headD 0
+    let pre := (order.dropWhile (fun x => x != t)).drop 1
+    let booked := (σ.led.m.toList.filter (fun (ks : Key × Slot) => ks.1.1 == r && (usageOf ks.2.usage t).isSome)).map (fun ks => ks.1.2)
+    let b := boundSlot e σ t
+    match booked.foldl (fun (m : Option Int) i => match m with | none => some i | some x => some (max x i)) none with
+    | none => false
+    | some L =>
+      !(order.contains t && (List.range (L - b + 1).toNat).all (fun k =>
+        let i := b + (k : Int)
+        !(e.onShift r i && !e.leaveMark r i) || (usageOf (σ.led.get r i).usage t).isSome ||
+          pre.any (fun t' => (usageOf (σ.led.get r i).usage t').isSome))))
   -- containers: scheduled => children scheduled and dates = min / max; all children scheduled => scheduled
   let conts := (List.range e.tasks.size).filter (fun c => !(e.taskD c).leaf && !(e.taskD c).children.isEmpty)
   let contFail := conts.filter (fun c =>
@@ -205,6 +231,7 @@ def runSched (j : Json) : Json :=
   let thm := Json.mkObj [("resources", Json.num (JsonNumber.fromNat e.res.size)), ("resources_aligned", Json.num (JsonNumber.fromNat nAligned)),
                          ("back_edges", Json.num (JsonNumber.fromNat backPairs.length)), ("back_fail", Json.num (JsonNumber.fromNat backFail.length)),
                          ("idle_tasks", Json.num (JsonNumber.fromNat idleTasks.length)), ("idle_fail", Json.num (JsonNumber.fromNat idleFail.length)),
+                         ("fit_fail", Json.num (JsonNumber.fromNat fitFail.length)),
                          ("limit_periods", Json.num (JsonNumber.fromNat limChecks.length)), ("limit_fail", Json.num (JsonNumber.fromNat limFail.length)),
                          ("containers", Json.num (JsonNumber.fromNat conts.length)), ("container_fail", Json.num (JsonNumber.fromNat contFail.length)),
                          ("elig", Json.num (JsonNumber.fromNat eligs.length)), ("elig_scheduled", Json.num (JsonNumber.fromNat eligSched.length)),
